@@ -96,7 +96,9 @@ func (t *tb) ubits(v ssa.Value) int {
 				return min64(a + int(k))
 			}
 		case token.SHR:
-			if k, ok := t.constVal(x.Y); ok && a-int(k) >= 0 {
+			// only a value already known to be non-negative loses bits by shifting right (>> on a negative int keeps the sign)
+			_, uns, _ := intBits(x.X.Type())
+			if k, ok := t.constVal(x.Y); ok && (a < 64 || uns) && a-int(k) >= 0 {
 				return a - int(k)
 			}
 			return a
@@ -201,6 +203,28 @@ func (t *tb) term1(v ssa.Value) aff {
 		case token.SHL:
 			if k, ok := t.term(x.Y).isConst(); ok && k >= 0 && k < 32 {
 				return t.term(x.X).scale(1 << uint(k))
+			}
+		}
+		// division / remainder of a non-negative value by a power of two == shift / mask (canonical form: shift, mask)
+		if x.Op == token.QUO || x.Op == token.REM {
+			if k, ok := t.term(x.Y).isConst(); ok && k > 1 && k&(k-1) == 0 {
+				_, uns, isInt := intBits(x.X.Type())
+				if isInt && (uns || t.ubits(x.X) < 64) {
+					sh := 0
+					for kk := k; kk > 1; kk >>= 1 {
+						sh++
+					}
+					xs := t.term(x.X).String()
+					if x.Op == token.QUO {
+						return t.atomOf("(>> %s %d)", xs, sh)
+					}
+					m := fmt.Sprint(k - 1)
+					a, b := xs, m
+					if a > b {
+						a, b = b, a
+					}
+					return t.atomOf("(& %s %s)", a, b)
+				}
 			}
 		}
 		a, b := t.term(x.X).String(), t.term(x.Y).String()
